@@ -549,6 +549,17 @@ namespace {
       if (cx.hkind.empty() or n == nullptr or t == nullptr) return "bad-op";
       const ipr::Decl* d = nullptr;
       std::size_t size = 0;
+      // right before the addition the member sequence is asked for positions it has to refuse (see below)
+      bool refusing = true;
+      auto past_end = [&](const auto& seq) {
+         const auto n = seq.size();
+         for (std::size_t i : { n, n + 3 }) { try { (void) *seq.position(i); refusing = false; } catch (const std::logic_error&) { } }
+         try { (void) *seq.end(); refusing = false; } catch (const std::logic_error&) { }
+      };
+      if (cx.hkind == "param") past_end(cx.mapping->parameters().elements());
+      else if (cx.hkind == "enum") past_end(static_cast<const ipr::Enum*>(cx.enm)->members());
+      else if (cx.hkind == "base") past_end(static_cast<const ipr::Class*>(cx.cls)->bases());
+      else past_end(static_cast<const ipr::Block*>(cx.blk)->handlers());
       if (cx.hkind == "param") { d = cx.mapping->param(*n, *t); size = cx.mapping->parameters().size(); }
       else if (cx.hkind == "enum") { d = cx.enm->add_member(*n); size = cx.enm->members().size(); }
       else if (cx.hkind == "base") { d = cx.cls->declare_base(*t); size = cx.cls->bases().size(); }
@@ -556,7 +567,25 @@ namespace {
       bool fresh = cx.hid.emplace(d, int(cx.hdecls.size())).second;
       std::string out = "h" + std::to_string(cx.hdecls.size()) + " size=" + std::to_string(size);
       cx.hdecls.push_back(d);
-      return out + "\n@fresh=" + (fresh ? "1" : "0");
+      // The member sequence is asked about the newest member FIRST, directly at its index -- the previous thing it was asked (end of
+      // the previous `hadd`, or of `hnew`'s first `hfull`) being a position it had to refuse -- and then about positions past the end
+      // again (a sequence may remember where it was between calls; nothing here changes what it holds).
+      bool newest = true;
+      auto ask = [&](const auto& seq, const void* member) {
+         auto refused = [&](std::size_t i) { try { (void) *seq.position(i); return false; } catch (const std::logic_error&) { return true; } };
+         try { if (static_cast<const void*>(&*seq.position(size - 1)) != member) newest = false; } catch (const std::logic_error&) { newest = false; }
+         if (seq.size() != size) newest = false;
+         if (not refused(size) or not refused(size + 7)) newest = false;
+         try { (void) *seq.end(); newest = false; } catch (const std::logic_error&) { }
+      };
+      if (size > 0) {
+         if (cx.hkind == "param") ask(cx.mapping->parameters().elements(), static_cast<const ipr::Parameter*>(d));
+         else if (cx.hkind == "enum") ask(static_cast<const ipr::Enum*>(cx.enm)->members(), static_cast<const ipr::Enumerator*>(d));
+         else if (cx.hkind == "base") ask(static_cast<const ipr::Class*>(cx.cls)->bases(), static_cast<const ipr::Base_type*>(d));
+         else ask(static_cast<const ipr::Block*>(cx.blk)->handlers(), static_cast<const void*>(&*static_cast<const ipr::Block*>(cx.blk)->handlers().position(size - 1)));
+      }
+      return out + "\n@fresh=" + (fresh ? "1" : "0") + "\n@newest_member_read_first=" + (newest ? "1" : "0")
+         + "\n@positions_past_the_end_refused=" + (refusing ? "1" : "0");
    }
 
    // one homogeneous scope: {E=.. ; S=.. ; T=.. ; L=.. ; D=..}; `members` is the kind-specific member sequence
